@@ -454,6 +454,11 @@ func run(t *testing.T, c Case) (v *verdict, nontrivial bool, labels []string) {
 			ctx := func() string {
 				return fmt.Sprintf("%s; segment trace: %s ; events: %s ; consults: %s", where, world.Fmt(segTr), world.FmtObs(segEv), fmtConsults(segCo))
 			}
+			// --- a failed actor handles nothing until its supervisor has decided (operations are settled one by one)
+			if d := handledWhileFailed(tr, co); d != "" {
+				v = &verdict{"C08/suspended-until-decision|" + cell, d + "; " + ctx()}
+				return
+			}
 			// --- consultations: exactly the predicted ones, in the predicted order
 			var got []expConsult
 			for _, x := range segCo {
